@@ -197,12 +197,24 @@ def complex_order(chk):
         for e in I.events:
             if e.kind == "complex-order":
                 hits.setdefault((e.fn, e.stmt), (e, label))
+    # this property owns the Fourier-spectrum functions and the dominant-period measure; sites elsewhere are reported as notes
+    # (they belong to the properties anchored there) so that a defect in, say, the smoothing code is not raised against C06
+    OWN = ("eqsig.im.max_fa_period", "eqsig.fns.frequency.calc_fa_spectrum", "eqsig.fns.frequency.generate_fa_spectrum",
+           "eqsig.fns.frequency.fas2values", "eqsig.fns.frequency.fas2signal", "eqsig.fns.frequency.calc_fourier_moment",
+           "eqsig.fns.frequency.get_bandwidth_boore_2003", "eqsig.single.Signal.gen_fa_spectrum", "eqsig.single.Signal.fa_spectrum",
+           "eqsig.single.Signal.fa_spectrum_abs", "eqsig.single.Signal.fa_freqs", "eqsig.single.Signal.fa_frequencies",
+           "eqsig.single.Signal.generate_fa_spectrum")
+    own_hits = 0
     for (fn, stmt), (e, label) in sorted(hits.items()):
-        chk.ob("R-CPLX-ORDER", "%s:%s" % (e.loc.split(":")[0], fn.split(".", 1)[1]), "no ordering operation on complex data", False,
-               derived=e.what, loc=e.loc, stmt=stmt,
-               detail="NumPy orders complex numbers lexicographically (real part first): the result depends on the phase")
-    chk.ob("R-CPLX-ORDER", "eqsig/*", "no ordering operation on complex data in %d entries" % n, not hits,
-           derived="%d site(s)" % len(hits))
+        if fn in OWN:
+            own_hits += 1
+            chk.ob("R-CPLX-ORDER", "%s:%s" % (e.loc.split(":")[0], fn.split(".", 1)[1]), "no ordering operation on complex data", False,
+                   derived=e.what, loc=e.loc, stmt=stmt,
+                   detail="NumPy orders complex numbers lexicographically (real part first): the result depends on the phase")
+        else:
+            chk.note("off-property: ordering operation possibly on complex data in %s (%s): %s" % (fn, e.loc, e.what))
+    chk.ob("R-CPLX-ORDER", "eqsig/*[Fourier functions]", "no ordering operation on complex data in the %d Fourier-spectrum functions (%d entries swept)"
+           % (len(OWN), n), own_hits == 0, derived="%d site(s) in them, %d elsewhere (notes)" % (own_hits, len(hits) - own_hits))
     # a positive example keeps the rule from passing vacuously
     from ..interp import Interp, State
     import types
